@@ -29,3 +29,84 @@ Print Assumptions C03_tie_even.
 Theorem C03_tie_away : forall N d, 0 < d -> 2 * (N mod d) = d -> Z.abs N < Z.abs (spec_round MHalfAway N d * d).
 Proof. exact spec_round_tie_away. Qed.
 Print Assumptions C03_tie_away.
+
+From Dashu Require Import Float.Contract Float.Model Float.ModelProof.
+
+(** as-is models of float/src/{round,repr,mul,div}.rs *)
+Theorem C03_round_fract : forall B, 2 <= B -> forall m hi lo k, 0 <= k -> Z.abs lo < B ^ k ->
+  hi + adj (round_fract B m hi lo k) = spec_round m (hi * B ^ k + lo) (B ^ k).
+Proof. exact round_fract_spec. Qed.
+Print Assumptions C03_round_fract.
+
+Theorem C03_round_ratio : forall m I num den, den <> 0 -> Z.abs num < Z.abs den ->
+  I + adj (round_ratio m I num den) = spec_round m (Z.sgn den * (I * den + num)) (Z.abs den).
+Proof. exact round_ratio_spec. Qed.
+Print Assumptions C03_round_ratio.
+
+Theorem C03_repr_round_exact : forall B p m s e, dlen B s <= p -> repr_round B p m s e = AExact s e.
+Proof. exact repr_round_exact. Qed.
+Print Assumptions C03_repr_round_exact.
+
+Theorem C03_repr_round_error : forall B, 2 <= B -> forall p m s e, 1 <= p -> p < dlen B s ->
+  let k := dlen B s - p in
+  let r := approx_sig (repr_round B p m s e) in
+  Z.abs (r * B ^ k - s) < B ^ k /\ (is_half_mode m = true -> 2 * Z.abs (r * B ^ k - s) <= B ^ k) /\
+  side_ok m s (B ^ k) r /\ approx_exp (repr_round B p m s e) = e + k.
+Proof. exact repr_round_error. Qed.
+Print Assumptions C03_repr_round_error.
+
+Theorem C03_repr_round_digits : forall B, 2 <= B -> forall p m s e, 1 <= p -> p < dlen B s ->
+  let r := approx_sig (repr_round B p m s e) in B ^ (p - 1) <= Z.abs r <= B ^ p.
+Proof. exact repr_round_digits. Qed.
+Print Assumptions C03_repr_round_digits.
+
+Theorem C03_mul : forall B p m s1 e1 s2 e2, 1 <= p -> dlen B s1 <= p -> dlen B s2 <= p ->
+  ctx_mul B p m s1 e1 s2 e2 = (let '(s, e) := normalize B (s1 * s2) (e1 + e2) in repr_round B p m s e).
+Proof. exact ctx_mul_spec. Qed.
+Print Assumptions C03_mul.
+
+Theorem C03_sqr_cubic : forall B p m s e, 1 <= p -> dlen B s <= p ->
+  ctx_sqr B p m s e = (let '(s', e') := normalize B (s * s) (2 * e) in repr_round B p m s' e') /\
+  ctx_cubic B p m s e = (let '(s', e') := normalize B (s * s * s) (3 * e) in repr_round B p m s' e').
+Proof. intros; split; [apply ctx_sqr_spec | apply ctx_cubic_spec]; assumption. Qed.
+Print Assumptions C03_sqr_cubic.
+
+Theorem C03_normalize : forall B, 2 <= B -> forall s e,
+  let '(s', e') := normalize B s e in
+  (s = 0 -> s' = 0 /\ e' = 0) /\
+  (s <> 0 -> s' <> 0 /\ s' mod B <> 0 /\ exists k, 0 <= k /\ e' = e + k /\ s = s' * B ^ k).
+Proof. exact normalize_spec. Qed.
+Print Assumptions C03_normalize.
+
+Theorem C03_inexact_truthful : forall B, 2 <= B -> forall s k, s mod B <> 0 -> 1 <= k -> Z.rem s (B ^ k) <> 0.
+Proof. exact normalized_low_nonzero. Qed.
+Print Assumptions C03_inexact_truthful.
+
+Theorem C03_div : forall B, 2 <= B -> forall p m s1 e1 s2 e2, 1 <= p -> s2 <> 0 ->
+  let k := repr_div_shift B p s1 s2 in
+  0 <= k /\
+  exists a, repr_div B p m s1 e1 s2 e2 = Ok a /\
+    approx_exp a = e1 - e2 - k /\
+    approx_sig a = spec_round m (Z.sgn s2 * (s1 * B ^ k)) (Z.abs s2) /\
+    (match a with AExact q _ => q * s2 = s1 * B ^ k | AInexact _ _ _ => (s1 * B ^ k) mod s2 <> 0 end).
+Proof. exact repr_div_spec. Qed.
+Print Assumptions C03_div.
+
+Theorem C03_div_magnitude : forall B, 2 <= B -> forall p s1 s2, 1 <= p -> s2 <> 0 -> Z.rem s1 s2 <> 0 ->
+  let k := repr_div_shift B p s1 s2 in
+  (B ^ (p - 1) * Z.abs s2 <= Z.abs s1 * B ^ k) /\
+  (dlen B s1 <= p + dlen B s2 -> Z.abs s1 * B ^ k < B ^ (p + 1) * Z.abs s2).
+Proof. exact repr_div_magnitude. Qed.
+Print Assumptions C03_div_magnitude.
+
+Theorem C03_div_by_zero : forall B p m s1 e1 e2, 1 <= p -> repr_div B p m s1 e1 0 e2 = Panic DivideBy0.
+Proof. exact repr_div_by_zero. Qed.
+Print Assumptions C03_div_by_zero.
+
+Example C03_nonvacuous :
+  repr_round 10 3 MHalfEven 12345 0 = AInexact 123 2 NoOp /\
+  repr_round 10 3 MHalfEven 12350 0 = AInexact 124 2 AddOne /\
+  repr_div 10 3 MHalfAway 1 0 3 0 = Ok (AInexact 333 (-3) NoOp) /\
+  repr_div 10 3 MHalfAway (-2) 0 3 0 = Ok (AInexact (-667) (-3) SubOne) /\
+  ctx_mul 10 2 MZero 99 0 99 0 = AInexact 98 2 NoOp /\ ctx_mul 10 1 MHalfAway 8 1 5 0 = AExact 4 2.
+Proof. vm_compute. repeat split. Qed.
